@@ -43,10 +43,15 @@ type astInput struct {
 }
 
 type astBuilder struct {
-	r      *rwRT
-	st     *State
-	leaves map[string]leafInfo
+	r       *rwRT
+	st      *State
+	leaves  map[string]leafInfo
+	alt     bool // holes get the alternative syntactic kind
+	altUsed bool
 }
+
+// shapeAltKinds: also enumerate every shape with the alternative kinds in its holes
+var shapeAltKinds = true
 
 func (b *astBuilder) obj(kind string, fields map[string]AV) AV {
 	t := b.r.astPtr(kind)
@@ -69,12 +74,20 @@ func (b *astBuilder) stmtList(name string) AV {
 }
 func (b *astBuilder) simple(name string) AV {
 	// a simple statement (init/post/assign/comm): may be a yield call, cannot nest statements
+	if b.alt {
+		b.altUsed = true
+		return Dyn{T: b.r.astPtr("AssignStmt"), V: b.leaf(name, leafInfo{yieldCapable: true, what: "simple statement (assignment)"})}
+	}
 	return Dyn{T: b.r.astPtr("ExprStmt"), V: b.leaf(name, leafInfo{yieldCapable: true, what: "simple statement"})}
 }
 func (b *astBuilder) callLeaf(name string) AV {
 	return b.leaf(name, leafInfo{yieldCapable: true, what: "call operand"})
 }
 func (b *astBuilder) expr(name string) AV {
+	if b.alt {
+		b.altUsed = true
+		return Dyn{T: b.r.astPtr("CallExpr"), V: b.leaf(name, leafInfo{what: "expression (call)"})}
+	}
 	return Dyn{T: b.r.astPtr("Ident"), V: b.leaf(name, leafInfo{what: "expression"})}
 }
 func (b *astBuilder) block(name string) AV {
@@ -88,6 +101,17 @@ func (r *rwRT) shapes(kind string) []*astInput {
 		b := &astBuilder{r: r, st: newState(), leaves: map[string]leafInfo{}}
 		root := build(b)
 		out = append(out, &astInput{st: b.st, root: root, leaves: b.leaves, desc: desc})
+		if !shapeAltKinds {
+			return
+		}
+		// the same shape with the other syntactic kinds in its holes (simple statements as
+		// assignments, expressions as calls): code that discriminates on the kind of a part
+		// of the statement takes its other branch
+		b2 := &astBuilder{r: r, st: newState(), leaves: map[string]leafInfo{}, alt: true}
+		root2 := build(b2)
+		if b2.altUsed {
+			out = append(out, &astInput{st: b2.st, root: root2, leaves: b2.leaves, desc: desc + " (parts of the other syntactic kinds)"})
+		}
 	}
 	opt := func(present bool, v func() AV) AV {
 		if present {
